@@ -108,7 +108,7 @@ pub fn plan(prop: &str) -> Vec<Item> {
             v.push(it("fd_two", "pool=1,order=0", Some(2), 3));
             for other in [0, 1, 2] {
                 v.push(it("excl_drop", &format!("pool=1,k=1,other={}", other), Some(2), 3));
-                v.push(it("excl_drop", &format!("pool=2,k=1,other={}", other), Some(if other == 2 { 2 } else { 1 }), 2));
+                v.push(it("excl_drop", &format!("pool=2,k=1,other={}", other), Some(1), 2));
             }
             v.push(it("excl_drop", "pool=1,k=2,other=0", Some(2), 3));
             for mode in [2, 3] {
@@ -140,7 +140,7 @@ pub fn plan(prop: &str) -> Vec<Item> {
         }
         "C03" => {
             for pool in [1, 2, 3] {
-                v.push(it("f2_dormant_race", &format!("pool={}", pool), Some(3), 4));
+                v.push(it("f2_dormant_race", &format!("pool={}", pool), Some(if pool == 1 { 3 } else { 2 }), if pool == 1 { 4 } else { 3 }));
             }
             v.push(it("desync_then_sync", "pool=1", Some(3), 4));
             for how in [0, 1] {
@@ -305,6 +305,11 @@ pub fn plan(prop: &str) -> Vec<Item> {
                 }
             }
             v.push(it("pipe_in_items", "pool=1,n=3,pat=2,conc=1", None, 2));
+            // long inputs at a low preemption bound: thresholds (batch sizes, buffer limits) hide beyond small n
+            v.push(it("pipe_in_items", "pool=1,n=40,pat=0,conc=0", Some(0), 1));
+            v.push(it("pipe_in_items", "pool=1,n=24,pat=1,conc=0", Some(0), 1));
+            v.push(it("pipe_in_items", "pool=1,n=20,pat=2,conc=1", Some(0), 1));
+            v.push(it("pipe_in_items", "pool=0,n=20,pat=0,conc=1", Some(0), 1));
             v.push(it("pipe_in_items", "pool=2,n=2,pat=1,conc=1", Some(1), 2));
             v.push(it("pipe_in_items", "pool=0,n=2,pat=1,conc=1", Some(2), 3));
             for n in [0, 1, 2] {
@@ -325,8 +330,17 @@ pub fn plan(prop: &str) -> Vec<Item> {
             v.push(it("pipe_out", "pool=2,n=2,d=1,pat=1", Some(1), 2));
             v.push(it("pipe_out", "pool=1,n=4,d=3,pat=2", None, 2));
             v.push(it("pipe_out", "pool=1,n=4,d=1,pat=1", None, 2));
+            // long inputs, default-sized and larger buffers, at a low preemption bound
+            v.push(it("pipe_out", "pool=1,n=12,d=5,pat=0", Some(0), 1));
+            v.push(it("pipe_out", "pool=1,n=12,d=5,pat=1", Some(0), 1));
+            v.push(it("pipe_out", "pool=1,n=40,d=8,pat=0", Some(0), 1));
+            v.push(it("pipe_out", "pool=1,n=24,d=3,pat=2", Some(0), 1));
         }
         "C13" => {
+            for pool in [1, 2] {
+                v.push(it("suspend", &format!("pool={},resume=0,sync=0,stale=1", pool), Some(if pool == 1 { 2 } else { 1 }), if pool == 1 { 3 } else { 2 }));
+            }
+            v.push(it("suspend", "pool=1,resume=1,sync=1,stale=1", Some(1), 2));
             for pool in [0, 1, 2] {
                 for resume in [0, 1] {
                     for sync in [0, 1] {
@@ -341,10 +355,19 @@ pub fn plan(prop: &str) -> Vec<Item> {
                     if pool == 0 && (ctx == 0 || ctx == 3) {
                         continue;
                     }
-                    v.push(it("panic_contain", &format!("pool={},ctx={}", pool, ctx), Some(if pool <= 1 { 2 } else { 1 }), if pool <= 1 { 3 } else { 2 }));
+                    v.push(it("panic_contain", &format!("pool={},ctx={}", pool, ctx), Some(if pool <= 1 { 2 } else if pool == 2 { 1 } else { 0 }), if pool <= 1 { 3 } else if pool == 2 { 2 } else { 1 }));
                 }
             }
+            // the panicking operation's own wake-up arrived during the poll (AwokenWhileRunning), and the
+            // panicking future run by a thread draining inside sync
+            // (ctx 4 only with no pool threads: a sync that is already waiting when another runner's operation panics is
+            // outside the property, which speaks of attempts made after the unwinding has finished)
+            for (ctx, pool) in [(3, 1), (3, 2), (2, 0), (2, 1), (4, 0)] {
+                v.push(it("panic_contain", &format!("pool={},ctx={},selfwake=1", pool, ctx), Some(if pool == 2 { 1 } else { 2 }), if pool == 2 { 2 } else { 3 }));
+            }
+            v.push(it("panic_contain", "pool=0,ctx=4", Some(2), 3));
         }
+        "C15x" => {}
         "C16" => {
             for mode in 0..3 {
                 for pool in [1, 2] {
@@ -358,7 +381,7 @@ pub fn plan(prop: &str) -> Vec<Item> {
                 v.push(it("pool_census", &format!("pool={},n=2,phases=2", pool), Some(1), if pool >= 2 { 1 } else { 2 }));
             }
             v.push(it("pool_census", "pool=1,n=3,phases=0", Some(1), 2));
-            v.push(it("pool_census", "pool=2,n=3,phases=0", Some(1), 1));
+            v.push(it("pool_census", "pool=2,n=3,phases=0", Some(0), 1));
             v.push(it("pool_census", "pool=0,n=3,phases=0", Some(2), 3));
             v.extend(prog_sweep(&["D", "Dn", "Dx"], &[0, 1, 2], Some(1), 1, None, 3));
         }
@@ -440,7 +463,8 @@ pub fn owners(scenario: &str, part: &str) -> Vec<&'static str> {
     };
     let mut v: Vec<&'static str> = match class {
         "OVERLAP" => {
-            let mut v = vec!["C01"];
+            // two operations inside one object at once = aliased &mut T: exclusivity (C01) and memory safety (C14)
+            let mut v = vec!["C01", "C14"];
             if part.contains("pipe-item") {
                 v.push("C11");
             }
